@@ -3,7 +3,7 @@
 # seeds: uses the stored seeded/<ID>/patch.diff; checks per seed are listed below (own check first).
 cd /verif
 declare -A CH=( [C01]="C01" [C02]="C02" [C03]="C03 C14" [C04]="C04 C05" [C05]="C05" [C06]="C06" [C07]="C07" [C08]="C08" [C09]="C09" [C10]="C10" [C11]="C11" [C12]="C12" [C13]="C13" [C14]="C14" [C15]="C15" [C16]="C16" [C17]="C17" [C18]="C18" [C19]="C19" [C20]="C20 C12"
- [C01b]="C01 C12" [C02b]="C02" [C03b]="C03 C12 C20" [C04b]="C04 C05" [C05b]="C05 C12" [C06b]="C06 C08" [C07b]="C07 C09" [C08b]="C08" [C09b]="C09" [C10b]="C10" [C11b]="C11 C12" [C12b]="C12 C06" [C13b]="C13" [C14b]="C14" [C15b]="C15 C19" [C16b]="C16" [C17b]="C17" [C18b]="C18" [C19b]="C19 C10" [C20b]="C20" )
+ [C01b]="C01 C12" [C02b]="C02" [C03b]="C03 C12 C20" [C04b]="C04 C05" [C05b]="C05 C12" [C06b]="C06 C08" [C07b]="C07 C09" [C08b]="C08" [C09b]="C09" [C10b]="C10" [C11b]="C11 C12" [C12b]="C12 C06" [C13b]="C13" [C14b]="C14" [C15b]="C15 C19" [C16b]="C16" [C17b]="C17" [C18b]="C18" [C19b]="C19 C10" [C20b]="C20" [C01c]="C01" [C02c]="C02" [C05c]="C05 C04" [C06c]="C06" [C07c]="C07" [C08c]="C08" [C09c]="C09 C12" [C10c]="C10" [C12c]="C12 C07" [C13c]="C13" [C15c]="C15" [C19c]="C19" )
 for sd in $(ls -d seeded/C* | xargs -n1 basename | sort); do
   [ -f seeded/$sd/patch.diff ] || continue
   wt=/tmp/final_seed_$sd
